@@ -11,6 +11,9 @@
 -/
 import Golib.Gen.C16
 import Golib.ZipSender.FactsLoop
+import Golib.ZipSender.WireFacts
+import Golib.ZipSender.FactsWire
+import Golib.Packs.Skeletons
 
 namespace C16Gen
 open ZipSender
@@ -149,5 +152,56 @@ theorem sendAndClear_is_source_tail (Z : Zip) (C : Codec ρ) (s : State ρ) (h :
 theorem handover_final_in_source (C : Codec ρ) (s : State ρ) (ok ok' : Bool) :
     execS C ok Gen.C16.sendTail s = execS C ok' Gen.C16.sendTail s := by
   rw [send_tail_interpreted]; exact refTail_ignores_answer C s ok ok'
+
+/-! ### the pack on the wire (regenerated by `xlate/c03` from lang/pack: ZipPack.go, LogSinkPack.go, the CreatePack switch) -/
+
+/-- `GetPackType` of the container and of the records, and the `CreatePack` entries that bring their
+    readers back, are the type codes the wire model uses (`Wire.zipCode` = 0x170b, `LogSink.code` = 0x170a) -/
+theorem pack_type_codes_in_source :
+    Gen.Packs.packType.lookup "ZipPack" = some Wire.zipCode ∧ Gen.Packs.registry.lookup Wire.zipCode = some "ZipPack" ∧
+    Gen.Packs.packType.lookup "LogSinkPack" = some LogSink.code ∧
+    Gen.Packs.registry.lookup LogSink.code = some "LogSinkPack" := by decide
+
+/-- `ZipPack.Write` and `ZipPack.Read` as they are in the source now agree field by field (header,
+    status byte, decimal record count, blob): the hypothesis under which `transmitted_pack_reads_back`
+    and `receiver_end_to_end` speak about the code -/
+theorem zip_wire_layouts_agree : Layout.agrees Gen.Packs.ZipPack.w Gen.Packs.ZipPack.r = true := Wire.zip_agrees
+
+/-- … and the writer is the layout the wire model was written against -/
+theorem zip_writer_in_source : Gen.Packs.ZipPack.w =
+    .hdr (.fld "Status" .u8 .u8 (.fld "RecordCount" .dec .i64 (.fld "Records" .blob .any .nil))) := by decide
+
+/-- `ZipPack.SetRecords` / `GetRecords`: the statement skeletons C03's container model (`Zip.setRecords`,
+    `Zip.getRecords`, used by `emitted_is_setRecords` / `receiver_gets_records`) was written against -/
+theorem zip_container_skeletons_in_source :
+    Gen.Packs.skel.ZipPack_SetRecords = Packs.Skeletons.ZipPack_SetRecords ∧
+    Gen.Packs.skel.ZipPack_GetRecords = Packs.Skeletons.ZipPack_GetRecords := by decide
+
+/-! ### ZipPack.SetRecords / GetRecords and SetTcpClient, statement by statement (interpreted) -/
+
+theorem zip_setRecords_interpreted : Gen.C16.zipSetRecords = refSetRecords := by decide
+
+/-- the transcribed `SetRecords` *is* C03's `Zip.setRecords` (which `emitted_is_setRecords` is about),
+    for every receiver and every argument -/
+theorem zip_setRecords_is_source (z : Packs.Zip) (ps : List Packs.PV) :
+    execSet ps Gen.C16.zipSetRecords z [] = some (z.setRecords ps) := by
+  rw [zip_setRecords_interpreted]; exact execSet_ref z ps
+
+theorem zip_getRecords_interpreted : Gen.C16.zipGetRecords = refGetRecords := by decide
+
+/-- the transcribed `GetRecords` (nil guard, `RecordCount` rounds of `ReadPack`, the four stamps, append)
+    *is* C03's `Zip.getRecords` (which `receiver_gets_records` / `receiver_end_to_end` are about), for
+    every factory and every container -/
+theorem zip_getRecords_is_source (fac : Packs.Factory) (z : Packs.Zip) :
+    execGet fac z Gen.C16.zipGetRecords ⟨[], []⟩ = Packs.Zip.getRecords fac z := by
+  rw [zip_getRecords_interpreted]; exact execGet_ref fac z
+
+theorem setTcpClient_interpreted : Gen.C16.setTcpClient = refSetTcpClient := by decide
+
+/-- the transcribed `SetTcpClient` is the `setClient` input of the model (`crun_setClient`): the client
+    becomes the argument, the sender's state is untouched, nothing is handed over -/
+theorem setTcpClient_is_source {ρ : Type} (s : State ρ) (k k' : Nat) :
+    execClient k' Gen.C16.setTcpClient (s, k) = some ((s, k'), []) := by
+  rw [setTcpClient_interpreted]; rfl
 
 end C16Gen
